@@ -245,6 +245,16 @@ def families(rep, d) -> None:
                                               {"name": "id", "in": "path", "required": True, "schema": endpoint.S}],
                               "get": {"operationId": "ovr", "tags": ["t"], "parameters": [{"name": "q", "in": "query", "schema": {"type": "string", "format": "date"}}],
                                       "responses": {"204": {"description": "d"}}}}
+    # parameters named like the locals / arguments of the generated function (Names.tla's ReservedParams), with a request body and WITHOUT
+    # path-item parameters (the conflict check then runs only once, before the bodies are attached)
+    resv = []
+    for rn in ("headers", "params", "cookies", "body", "client", "url"):
+        for loc in ("query", "header", "cookie"):
+            k += 1
+            rid = 9500 + k
+            paths[f"/resv{rid}/end"] = {"post": {"operationId": f"resv{rid}", "tags": ["t"], "parameters": [{"name": rn, "in": loc, "required": True, "schema": endpoint.S}],
+                                                  "requestBody": {"content": {"application/json": {"schema": {"$ref": "#/components/schemas/BodyModel"}}}}, "responses": {"204": {"description": "d"}}}}
+            resv.append((rid, rn, loc))
     comps = json.loads(json.dumps(endpoint.COMPONENTS))
     # shared component parameters whose names coincide (same name in another location; names that differ only in case / delimiters)
     shared = {"TenantH": ("tenant", "header", "tenant"), "TenantQ": ("tenant", "query", "tenant"), "TenantC": ("tenant", "cookie", "tenant"),
@@ -271,6 +281,10 @@ def families(rep, d) -> None:
     calls.append({"id": "ovr", "module": "t.ovr", "variant": "sync_detailed", "secured": False, "raise": False,
                   "kwargs": {ovr.get(("query", "q"), "q"): ["date", True], ovr.get(("header", "q"), "q_header"): ["str", True], ovr.get(("path", "id"), "id"): ["str", True]},
                   "body": None, "served": endpoint.served_spec("none", 204)})
+    for rid, rn, loc in resv:
+        nm = names.get(f"resv{rid}", {})
+        calls.append({"id": f"resv{rid}", "module": f"t.resv{rid}", "variant": "sync_detailed", "secured": False, "raise": False,
+                      "kwargs": {nm.get((loc, rn), rn): ["str", True]}, "body": "json", "served": endpoint.served_spec("none", 204)})
     order = list(shared) + list(reversed(list(shared)))
     for k2, cname in enumerate(order):
         calls.append({"id": f"shared{k2}", "module": f"t.shared{k2}", "variant": "sync_detailed", "secured": False, "raise": False,
@@ -279,6 +293,18 @@ def families(rep, d) -> None:
     if "__crash__" in out:
         rep.violate("C03/families-package-broken", out["__crash__"][-400:])
         return
+    for rid, rn, loc in resv:
+        o = out[f"resv{rid}"]
+        rep.count(1, ("family", "reserved-name-parameter", rn, loc))
+        if o.get("raised") or o.get("harness_error") or len(o.get("requests", [])) != 1:
+            rep.violate(f"C03/family/reserved-name/{rn}/{loc}/call-failed", f"parameter named {rn!r} in {loc} with a JSON body: {o.get('raised') or o.get('harness_error')}")
+            continue
+        r = o["requests"][0]
+        got = {"query": dict(map(tuple, r["query"])).get(rn), "header": r["headers"].get(rn.lower()),
+               "cookie": dict(x.strip().split("=", 1) for x in r["headers"].get("cookie", "").split(";") if "=" in x).get(rn)}
+        if got[loc] != "tok" or r["body"]["kind"] != "json":
+            rep.violate(f"C03/family/reserved-name/{rn}/{loc}/misplaced", f"parameter named {rn!r} in {loc} with a JSON body: the request carries {got[loc]!r} there "
+                        f"(query={r['query']}, body kind {r['body']['kind']})", request=r)
     for k2, cname in enumerate(order):
         wire, loc, py = shared[cname]
         o = out[f"shared{k2}"]
